@@ -106,14 +106,28 @@ def _solve(constraints, timeout):
     return str(r), (s.model() if r == z3.sat else None), time.time() - t0, s
 
 
+CUBE = None          # (index, total): this process only looks at strings whose first token falls into its share of the alphabet
+
+
+def _cube_constraint(ch):
+    if not CUBE:
+        return []
+    i, n = CUBE
+    mine = [a for k, a in enumerate(ch.alphabet) if k % n == i]
+    allowed = [ch.is_(0, a) for a in mine]
+    if i == 0:
+        allowed.append(ch.is_(0, END))
+    return [z3.Or(allowed)]
+
+
 def _finish(ch, goal, timeout, what, extra_charts=()):
     """twin: base constraints alone must be satisfiable; real: base + defs + goal"""
     t0 = time.time()
-    cons = list(ch.base) + list(ch.defs)
+    cons = list(ch.base) + list(ch.defs) + _cube_constraint(ch)
     for c in extra_charts:
         cons += list(c.base) + list(c.defs)
     r, m, secs, _ = _solve(cons + [goal], timeout)
-    out = {"what": what, "L": ch.L, "alphabet": len(ch.alphabet), "definitions": len(cons), "secs": round(secs, 2),
+    out = {"what": what, "L": ch.L, "alphabet": len(ch.alphabet), "cube": CUBE, "definitions": len(cons), "secs": round(secs, 2),
            "build_secs": None, "state": r}
     if r == 'unsat':
         out["verdict"] = "PROVED"
